@@ -16,6 +16,7 @@ import (
 	"time"
 
 	"github.com/rhysd/actionlint"
+	"gopkg.in/yaml.v3"
 )
 
 // ---------------------------------------------------------------------------------- rendering
@@ -419,6 +420,8 @@ var exprCharReps = map[string][]string{
 	"comma":    {","},
 	"illegal":  {"?", "\"", "#", "{", "$", "/", "é", "\\", "~", "%", "^", ":", ";", "@", "\v", "\u00a0", "`", "あ"},
 	"bad":      {"\x00", "\xff", "\xc3"},
+	"dollar":   {"$"}, // members of `illegal` that the if: channel tells apart (the marks ${{ and {)
+	"lbrace":   {"{"},
 }
 
 var exprLexKind = map[actionlint.TokenKind]string{
@@ -771,6 +774,7 @@ var exprSyntaxAnchors = []string{
 	"got unexpected ", "unexpected EOF while lexing", "scan error while lexing expression",
 	"unexpected token ", "unexpected end of input while parsing", "parser did not reach end of input",
 	"parsing invalid integer literal", "parsing invalid float literal",
+	"unexpected \"}}\" in \"if\" condition", // checkIfCondition (fix 4175e16)
 }
 
 func exprIsSyntaxMsg(m string) bool {
@@ -857,6 +861,158 @@ func exprLint(id int, classes []string, rot, variant int) ExprLintOut {
 		out.Sites = append(out.Sites, exprLintSite("if", head, l2, "", 7, from2, len(l2)))
 	}
 	return out
+}
+
+// ------------------------------------------------------------------------------------ if: channel
+
+// ExprIfRun is what Linter.Lint says about one rendering of a character-class string as the value of an
+// if: key (record kind "if" of ExprTrace.tla).
+type ExprIfRun struct {
+	Kind    string   `json:"kind"`
+	S       []string `json:"s"`
+	Text    string   `json:"text"`
+	Level   string   `json:"level"` // "job" | "step"
+	Style   string   `json:"style"` // "plain" | "single" | "double"
+	Rot     int      `json:"rot"`
+	NSyntax int      `json:"nsyntax"` // syntax diagnostics of the lexer/parser/if-condition check
+	NExpr   int      `json:"nexpr"`   // all diagnostics of the expression rule
+	Inside  bool     `json:"inside"`  // every syntax diagnostic lies on the line of the value, between its first character and the end of the lexer's input
+	Off     int      `json:"off"`     // offset (in characters of S) of the first syntax diagnostic, 0 if none / not at a character
+	Msgs    []string `json:"msgs"`
+	Other   []Diag   `json:"other"` // diagnostics of other rules except if-cond (the embedding must be clean)
+	LintErr string   `json:"lintErr,omitempty"`
+	Src     string   `json:"src"`
+}
+
+// exprPlainOK: does YAML read `text` written as a plain scalar after `key: ` as exactly that string?
+func exprPlainOK(text string) bool {
+	if text == "" || strings.ContainsAny(text, "\n\r\t\x00") {
+		return false
+	}
+	var doc yaml.Node
+	if err := yaml.Unmarshal([]byte("k: "+text+"\n"), &doc); err != nil {
+		return false
+	}
+	if doc.Kind != yaml.DocumentNode || len(doc.Content) != 1 {
+		return false
+	}
+	m := doc.Content[0]
+	if m.Kind != yaml.MappingNode || len(m.Content) != 2 {
+		return false
+	}
+	n := m.Content[1]
+	return n.Kind == yaml.ScalarNode && n.Style == 0 && n.Value == text && n.Anchor == "" && n.Alias == nil &&
+		n.HeadComment == "" && n.LineComment == "" && n.FootComment == "" && m.Content[0].Value == "k"
+}
+
+// exprIfExec renders the classes (ws is always a blank, see C07 for multi-line scalars) and lints the
+// value as a bare if: at job and step level in every YAML style that can carry it unchanged.
+func exprIfExec(classes []string, rot int, only string) []ExprIfRun {
+	var sb strings.Builder
+	for i, c := range classes {
+		reps := exprCharReps[c]
+		switch { // every class is written as exactly one character
+		case c == "ws":
+			sb.WriteString(" ")
+		case c == "illegal": // characters every YAML style can carry; ASCII only (columns of non-ASCII text belong to C07)
+			safe := []string{"?", "#", "/", "~", "%", "^", ":", ";", "@"}
+			sb.WriteString(safe[(i*7+rot)%len(safe)])
+		case len(reps) == 0:
+			sb.WriteString("?")
+		default:
+			sb.WriteString(reps[(i*7+rot)%len(reps)])
+		}
+	}
+	text := sb.String()
+	if classes == nil {
+		classes = []string{}
+	}
+	type styleT struct{ name, scalar string }
+	var styles []styleT
+	if exprPlainOK(text) {
+		styles = append(styles, styleT{"plain", text})
+	}
+	if !strings.ContainsAny(text, "\x00\n\r\t") {
+		styles = append(styles, styleT{"single", "'" + strings.ReplaceAll(text, "'", "''") + "'"})
+	}
+	if !strings.ContainsAny(text, "\"\\\x00\n\r\t") {
+		styles = append(styles, styleT{"double", "\"" + text + "\""})
+	}
+	levels := []struct {
+		name, head, prefix, tail string
+		line                     int
+	}{
+		{"job", "on: push\njobs:\n  test:\n", "    if: ", "    runs-on: ubuntu-latest\n    steps:\n      - run: echo\n", 4},
+		{"step", "on: push\njobs:\n  test:\n    runs-on: ubuntu-latest\n    steps:\n      - run: echo\n", "        if: ", "", 7},
+	}
+	var out []ExprIfRun
+	for _, lv := range levels {
+		for _, st := range styles {
+			if only != "" && only != lv.name+"/"+st.name {
+				continue
+			}
+			run := ExprIfRun{Kind: "if", S: classes, Text: text, Level: lv.name, Style: st.name, Rot: rot, Inside: true,
+				Msgs: []string{}, Other: []Diag{}}
+			run.Src = lv.head + lv.prefix + st.scalar + "\n" + lv.tail
+			first := len(lv.prefix) + 1 // column of the first character of the value
+			if st.name != "plain" {
+				first++
+			}
+			ds, err := lintSrc(run.Src)
+			if err != nil {
+				run.LintErr = err.Error()
+				out = append(out, run)
+				continue
+			}
+			for _, d := range ds {
+				if d.Kind != "expression" {
+					if d.Kind != "if-cond" {
+						run.Other = append(run.Other, d)
+					}
+					continue
+				}
+				run.NExpr++
+				if !exprIsSyntaxMsg(d.Msg) {
+					continue
+				}
+				run.NSyntax++
+				run.Msgs = append(run.Msgs, d.Msg)
+				// text/scanner counts columns in characters and every class is one character, so the column of
+				// the diagnostic relative to the first character of the value is an offset in S (the quoted
+				// forms only ever make the source longer than the value)
+				off := d.Col - first
+				if d.Line != lv.line || off < 0 || off > len(classes)+2 {
+					run.Inside = false
+				} else if run.NSyntax == 1 {
+					run.Off = off
+				}
+			}
+			out = append(out, run)
+		}
+	}
+	return out
+}
+
+// exprLiteralsInRange: no run of digits longer than 2 and no run of hex digits longer than 6, so that every
+// number that can be read out of the string fits 32 bits / float64 (out-of-range literals are rejected by design).
+func exprLiteralsInRange(s []string) bool {
+	dig, hex := 0, 0
+	for _, c := range s {
+		switch c {
+		case "zero", "nz":
+			dig++
+			hex++
+		case "hexalpha", "e":
+			dig = 0
+			hex++
+		default:
+			dig, hex = 0, 0
+		}
+		if dig > 2 || hex > 6 {
+			return false
+		}
+	}
+	return true
 }
 
 // ------------------------------------------------------------------------------------ commands
@@ -1050,6 +1206,91 @@ func init() {
 			return exprLint(v.ID, v.Ts, rot, variant)
 		})
 		return writeJSONL(args[1], out)
+	})
+
+	// expr-if <in.jsonl> <out.jsonl>: {id, s[, rot, only]} -> Linter.Lint on the value as a bare if: condition
+	register("expr-if", func(args []string) error {
+		watchdog()
+		type inT struct {
+			ID   int      `json:"id"`
+			S    []string `json:"s"`
+			Rot  *int     `json:"rot,omitempty"`
+			Only string   `json:"only,omitempty"`
+		}
+		type outT struct {
+			ID   int         `json:"id"`
+			Runs []ExprIfRun `json:"runs"`
+		}
+		in, err := readJSONL[inT](args[0])
+		if err != nil {
+			return err
+		}
+		out := parallelMap(in, func(v inT) outT {
+			rot := v.ID
+			if v.Rot != nil {
+				rot = *v.Rot
+			}
+			return outT{v.ID, exprIfExec(v.S, rot, v.Only)}
+		})
+		return writeJSONL(args[1], out)
+	})
+
+	// expr-if-random <n> <minlen> <maxlen> <seed> <out.ndjson>: random longer if: values (token-like fragments with
+	// open / close marks dropped in), one rendering each
+	register("expr-if-random", func(args []string) error {
+		watchdog()
+		n, _ := strconv.Atoi(args[0])
+		lo, _ := strconv.Atoi(args[1])
+		hi, _ := strconv.Atoi(args[2])
+		seed, _ := strconv.ParseInt(args[3], 10, 64)
+		rng := rand.New(rand.NewSource(seed))
+		type job struct {
+			s         []string
+			rot, pick int
+		}
+		insert := func(s []string, at int, what ...string) []string {
+			return append(s[:at:at], append(append([]string{}, what...), s[at:]...)...)
+		}
+		jobs := make([]job, n)
+		for i := 0; i < n; {
+			s := exprLexRandom(rng, lo, hi)
+			if rng.Intn(2) == 0 && len(s) >= 2 && s[len(s)-1] == "rbrace" && s[len(s)-2] == "rbrace" {
+				s = s[:len(s)-2] // the generator for the lexer mostly closes its strings
+			}
+			for k := range s {
+				if s[k] == "bad" {
+					s[k] = "illegal"
+				}
+			}
+			if rng.Intn(3) == 0 {
+				s = insert(s, rng.Intn(len(s)+1), "dollar", "lbrace", "lbrace")
+			}
+			if rng.Intn(3) == 0 {
+				s = insert(s, rng.Intn(len(s)+1), "rbrace", "rbrace")
+			}
+			if rng.Intn(6) == 0 {
+				s = insert(s, rng.Intn(len(s)+1), []string{"rbrace", "lbrace", "dollar"}[rng.Intn(3)])
+			}
+			if !exprLiteralsInRange(s) {
+				continue
+			}
+			jobs[i] = job{s, rng.Intn(1000), rng.Intn(6)}
+			i++
+		}
+		recs := parallelMap(jobs, func(j job) *ExprIfRun {
+			runs := exprIfExec(j.s, j.rot, "")
+			if len(runs) == 0 {
+				return nil
+			}
+			return &runs[j.pick%len(runs)]
+		})
+		out := make([]ExprIfRun, 0, len(recs))
+		for _, r := range recs {
+			if r != nil && len(r.S) > 0 {
+				out = append(out, *r)
+			}
+		}
+		return writeJSONL(args[4], out)
 	})
 
 	// expr-lex-random <n> <minlen> <maxlen> <seed> <out.ndjson>: random longer character strings on the real lexer
